@@ -56,7 +56,7 @@ func classify(e ast.Expr) vtype {
 			return tBool
 		}
 		return tItem
-	case *ast.SelectorExpr, *ast.StarExpr:
+	case *ast.SelectorExpr, *ast.StarExpr, *ast.InterfaceType:
 		return tItem
 	}
 	return tOther
